@@ -806,8 +806,30 @@ def check_accept(ctx, rule="T-ACCEPT"):
                 if taken != adv:
                     probs.append("RCV.NXT advances by %s but %s octets are appended to incoming.text: octets that were cut off are acknowledged and never delivered (or delivered octets are not acknowledged)" % (
                         S.lin_str(adv), S.lin_str(taken)))
+                # ... and never more than the receive buffer has room for: the count is min(.., RCV.WND - len(incoming.text))
+                free = S.lin(("bin", "Sub", ("field", ("field", SELF, "rcv"), "wnd"), ("call", "len", (("field", ("field", SELF, "incoming"), "text"),))))
+                def _is_free(x):
+                    if x[0] == "cast":
+                        return _is_free(x[1])
+                    if x[0] == "bin" and x[1] == "Sub":
+                        a, b_ = x[2], x[3]
+                        while a[0] == "cast":
+                            a = a[1]
+                        while b_[0] == "cast":
+                            b_ = b_[1]
+                        return a == ("field", ("field", SELF, "rcv"), "wnd") and b_[0] == "call" and b_[1].endswith("::len") and b_[2] == (("field", ("field", SELF, "incoming"), "text"),)
+                    return False
+                bounded = False
+                if len(taken[0]) == 1 and taken[0][0][1] == 1 and taken[1] == 0:
+                    a0 = taken[0][0][0]
+                    if a0[0] == "call" and a0[1].rsplit("::", 1)[-1] == "min" and len(a0[2]) == 2 and any(_is_free(y) for y in a0[2]):
+                        bounded = True
+                if not bounded:
+                    probs.append("the octets appended to incoming.text (%s) are not limited to the free space RCV.WND - len(incoming.text): the buffer can grow beyond the window, and the next `rcv.wnd - incoming.text.len()` underflows" % S.lin_str(taken)[:120])
                 if not S.atoms(lo, lambda y: y[0] == "call" and y[1].endswith("wrapping_sub") and S.atoms(y, lambda z: z == old_nxt)):
                     probs.append("the octets skipped at the front of the segment are not measured from RCV.NXT - SEG.SEQ")
+            elif app[0] == "upd" and app[1].endswith("::remove_front"):
+                probs.append("everything after the skipped prefix of the segment text is appended to incoming.text while RCV.NXT advances by %s: the part that does not fit the receive buffer is neither cut off nor acknowledged, the buffer grows beyond RCV.WND and the next `rcv.wnd - incoming.text.len()` underflows" % S.lin_str(adv)[:80])
             else:
                 probs.append("the octets appended are %s: not a slice of the segment text" % S.term_str(app)[:100])
     ctx.require(n >= 1, "%s: no path appends to incoming.text" % rule)
